@@ -238,7 +238,7 @@ def check_C07():
 
 
 def check_C13():
-    archive_family("C13", arch_cfgs(), "stats", "Stats",
+    archive_family("C13", arch_cfgs() + ["Archive_U"], "stats", "Stats",
                    ARCH_RULE % (3, "the same alphabets") +
                    "Reader.Inspect(true|false) x ZeroLengthSectionAsEOF is compared field by field with the specification's Stats operator, and its success with that of a hash-verifying "
                    "BlockReader scan; corrupted/truncated inputs are compared in the same way from the C02 mutation set",
@@ -261,13 +261,38 @@ def check_C02():
         f.write(open(emb["out"]).read())
     obs, arch = os.path.join(scratch(), "obs.ndjson"), os.path.join(scratch(), "arch.ndjson")
     rc, rep = harness_run(vh, ["archive-replay", em["out"], "@REPORT", "mode=trunc", "obs=" + obs, "arch=" + arch], timeout=3000)
-    val = run_tlc("ReaderObs", "ReaderObs.cfg", workers=1, timeout=3000, env={"VERIF_OBS": obs, "VERIF_ARCH": arch})
     nobs = sum(1 for _ in open(obs))
-    txt = open(val["out"], errors="replace").read()
-    m = re.search(r'"VALIDATED", (\d+)', txt)
-    if not m or int(m.group(1)) != nobs:
-        raise Inconclusive("ReaderObs validation did not consume all %d observations\n%s" % (nobs, val["tail"]))
-    rejects = [int(x) for x in re.findall(r'<<"REJECT", (\d+)>>', txt)]
+    # the observations are independent of each other: validated in parallel slices (one TLC each)
+    nsl = 1 if nobs < 1500000 else 8
+    per = (nobs + nsl - 1) // nsl
+    slices = []
+    with open(obs) as f:
+        for k in range(nsl):
+            sp = os.path.join(scratch(), "obs-%d.ndjson" % k)
+            n = 0
+            with open(sp, "w") as g:
+                for line in f:
+                    g.write(line)
+                    n += 1
+                    if n == per:
+                        break
+            if n:
+                slices.append((k, sp, n))
+    from concurrent.futures import ThreadPoolExecutor
+    def validate(sl):
+        k, sp, n = sl
+        return run_tlc("ReaderObs", "ReaderObs.cfg", workers=1, timeout=3000, env={"VERIF_OBS": sp, "VERIF_ARCH": arch}, tag="-s%d" % k)
+    with ThreadPoolExecutor(len(slices)) as ex:
+        vals = list(ex.map(validate, slices))
+    val = vals[0]
+    rejects = []
+    for (k, sp, n), v in zip(slices, vals):
+        txt = open(v["out"], errors="replace").read()
+        m = re.search(r'"VALIDATED", (\d+)', txt)
+        if not m or int(m.group(1)) != n:
+            raise Inconclusive("ReaderObs validation did not consume all %d observations of slice %d\n%s" % (n, k, v["tail"]))
+        rejects += [k * per + int(x) for x in re.findall(r'<<"REJECT", (\d+)>>', txt)]
+        os.remove(sp)
     viols = list(rep["violations"] or [])
     if rejects:
         want = set(rejects)
